@@ -90,6 +90,6 @@ package scorch
 //@   modifies fields(Scorch), lock(s.rootLock), openTx, bbolt.Tx.open
 //@   at call snapshots.DeleteBucket#0: assert !in(protectedSnapshots, epochToRemove)
 //@   ensures !held(s.rootLock) && rheld(s.rootLock) == 0 && openTx == old(openTx)
-//@   loop 0: invariant held(s.rootLock) && rheld(s.rootLock) == 0 && protectedSnapshots != nil && (cap(epochsToRemove) == 0 || fresh(epochsToRemove)) && (cap(newEligible) == 0 || fresh(newEligible)) && openTx == old(openTx)
+//@   loop 0: invariant held(s.rootLock) && rheld(s.rootLock) == 0 && protectedSnapshots != nil && (cap(epochsToRemove) == 0 || fresh(epochsToRemove)) && (cap(newEligible) == 0 || fresh(newEligible)) && (cap(epochsToRemove) == 0 || cap(newEligible) == 0 || base(epochsToRemove) != base(newEligible)) && openTx == old(openTx)
 //@   loop 0: invariant forall(k, 0, len(epochsToRemove), !in(protectedSnapshots, epochsToRemove[k])) && forall(k, 0, len(newEligible), in(protectedSnapshots, newEligible[k]))
 //@   loop 1: invariant !held(s.rootLock) && rheld(s.rootLock) == 0 && tx != nil && tx.Tx != nil && tx.Tx.open && snapshots != nil && openTx == old(openTx) + 1 && forall(k, 0, len(epochsToRemove), !in(protectedSnapshots, epochsToRemove[k])) && 0 <= numRemoved && numRemoved <= iter
